@@ -111,4 +111,33 @@ theorem energy_sequences :
          "sensor._energy_pos_passive_tendon", "sensor._energy_vel_kinetic.energy_vel_kinetic"] := by
   rw [energy_events_eq]; decide +kernel
 
+/-! ## 5. the cutoff pass over atomically accumulated sensors (touch, tendon actuator force) -/
+
+/-- (5a) **touch sensors are accumulated, then cut off**: the events of `forward()` that read `m.sensor_touch_adr` are, in
+    program order, the launch of `_sensor_touch` (atomic accumulation of the normal forces) and the launch of the generic
+    cutoff post-pass `_tendon_actuator_force_cutoff` (kernel theorems `cutoff_postpass_spec`, `touch_cutoff_spec` of
+    Props/C07.lean), both guarded by "sensors enabled" only.
+    (Before /repo commit "fix: touch sensors ignored sensor_cutoff" only the first event existed; found by this check.) -/
+theorem touch_then_cutoff_pass :
+    ((forward_forward.filter (fun ev => ev.reads.contains (nameId "m.sensor_touch_adr"))).map
+        (fun ev => (ev.kind, name ev.subject, ev.conds.map name)))
+      = [(EvKind.launch, "sensor._sensor_touch", ["not (m.opt.disableflags & DisableBit.SENSOR)"]),
+         (EvKind.launch, "sensor._tendon_actuator_force_cutoff", ["not (m.opt.disableflags & DisableBit.SENSOR)"])] := by
+  decide +kernel
+
+/-- (5b) every launch of `forward()` that accumulates into `d.sensordata` atomically over contacts or actuators
+    (`_sensor_touch`, `_tendon_actuator_force`) is followed IMMEDIATELY (next host event, same guards) by a launch of the
+    cutoff post-pass over the same address list, which reads the sensors' type, data type, address, cutoff and
+    `d.sensordata` -/
+theorem accumulating_sensor_launches_have_cutoff_pass :
+    ((forward_forward.zip (forward_forward.drop 1)).filter
+        (fun p => p.1.subject == nameId "sensor._sensor_touch" || p.1.subject == nameId "sensor._tendon_actuator_force")).map
+      (fun p => (name p.1.subject, p.2.kind, name p.2.subject, p.2.conds == p.1.conds,
+        ["m.sensor_type", "m.sensor_datatype", "m.sensor_adr", "m.sensor_cutoff", "d.sensordata",
+         if p.1.subject == nameId "sensor._sensor_touch" then "m.sensor_touch_adr" else "m.sensor_tendonactfrc_adr"].all
+          (fun s => p.2.reads.contains (nameId s))))
+      = [("sensor._sensor_touch", EvKind.launch, "sensor._tendon_actuator_force_cutoff", true, true),
+         ("sensor._tendon_actuator_force", EvKind.launch, "sensor._tendon_actuator_force_cutoff", true, true)] := by
+  decide +kernel
+
 end Mjw.Props.C07
